@@ -89,6 +89,11 @@ impl<E: FieldElement, H: ElementHasher<BaseField = E::BaseField>> VerifierChanne
                 trace_queries.len()
             )));
         }
+        if gkr_proof.is_some() && !air.context().has_lagrange_kernel_aux_column() {
+            return Err(VerifierError::ProofDeserializationError(
+                "proof contains a GKR proof but the trace has no Lagrange kernel column".to_string(),
+            ));
+        }
         let num_fri_layers = fri_options.num_fri_layers(lde_domain_size);
         if fri_proof.num_layers() != num_fri_layers {
             return Err(VerifierError::ProofDeserializationError(format!(
